@@ -28,6 +28,10 @@ def dec(x):
         return float("inf")
     if x == "-inf":
         return float("-inf")
+    if x == "hugeint":
+        return 10 ** 5000
+    if x == "-hugeint":
+        return -(10 ** 5000)
     return x
 
 
